@@ -144,9 +144,6 @@ func (vc *VC) mergeStates(states []*State) *State {
 		base = lca(base, s.pc)
 	}
 	guards := make([]*Term, len(live))
-	for i, s := range live {
-		guards[i] = factsSince(s.pc, base)
-	}
 	m := &State{env: map[types.Object]*Term{}, ghost: map[string]*Term{}, heap: map[string]*Term{}}
 	m.epoch = live[0].epoch
 	for _, s := range live[1:] {
@@ -156,15 +153,26 @@ func (vc *VC) mergeStates(states []*State) *State {
 			break
 		}
 	}
-	m.pc = base.push(Or(guards...))
-	// name guards to keep formulas small
-	for i, g := range guards {
-		if !pureMode && termSize(g, 40) >= 40 {
-			c := Fresh("g", SBool)
-			// c <=> g is not sound to assert under merged pc? it is definitional (c fresh), safe.
-			m.pc = m.pc.push(Eq(c, g))
-			guards[i] = c
+	if pureMode {
+		for i, s := range live {
+			guards[i] = factsSince(s.pc, base)
 		}
+		m.pc = base.push(Or(guards...))
+	} else {
+		// linear encoding: a fresh selector per branch implies each of the branch's facts (one copy of every fact)
+		m.pc = base
+		for i, s := range live {
+			g := Fresh("g", SBool)
+			guards[i] = g
+			var fs []*Term
+			for q := s.pc; q != base && q != nil; q = q.parent {
+				fs = append(fs, q.fact)
+			}
+			for j := len(fs) - 1; j >= 0; j-- {
+				m.pc = m.pc.push(Implies(g, fs[j]))
+			}
+		}
+		m.pc = m.pc.push(Or(guards...))
 	}
 	mergeVal := func(hint string, vals []*Term) *Term {
 		first := vals[0]
